@@ -69,7 +69,9 @@ SNIPPETS = [
 ]
 
 
-SMALL_SCOPES = {"shadow": ('"EXT", "JABS", "FREE", "NOARG"', "{0, 1, 2}"), "dup": ('"EXT", "CONST", "NOARG"', "{0, 1, 2}")}
+SMALL_SCOPES = {"shadow": ('"EXT", "JABS", "FREE", "NOARG"', "{0, 1, 2}"), "dup": ('"EXT", "CONST", "NOARG"', "{0, 1, 2}"),
+                # two EXTENDED_ARG prefixes in the quick tier, too (operands >= 65 536)
+                "wide": ('"EXT", "RAW", "NOARG"', "{0, 1, 2}")}
 
 
 def model_cfg(ver: str, tier: str, wd, emit=True, scope="module") -> str:
@@ -80,7 +82,7 @@ def model_cfg(ver: str, tier: str, wd, emit=True, scope="module") -> str:
     classes = '"EXT", "JABS", "JREL", "NAME", "LOCAL", "FREE", "CONST", "NOARG", "RAW"'
     if scope in SMALL_SCOPES:
         # only what the shared cell / free name (the duplicated constant) can interact with, but 4 units in both tiers
-        classes, by, mu, mp = SMALL_SCOPES[scope] + (4, 1)
+        classes, by, mu, mp = SMALL_SCOPES[scope] + (4, 2 if scope == "wide" else 1)
     fn = wd / f"MC_Decode_{ver}_{tier}_{scope}.cfg"
     fn.write_text(f"""SPECIFICATION Spec
 CONSTANTS
@@ -143,8 +145,8 @@ def collect_events(rep: Report, tier: str, wd, pool: Pool, gen_cases, extra_sour
             f = str(wd / f"gen-{v}-{k}.ndjson")
             files.append(f)
             jobs[v].append(("decode.units_to_file", {"cases": [{kk: c.get(kk, False) for kk in ("id", "units", "alt", "scope")} for c in ch], "path": f}))
-        srcs = [{"id": f"ex:{n}", "src": s, "mode": "exec"} for n, s in REPO_EXAMPLES.items()]
-        srcs += [{"id": f"sn:{i}", "src": s, "mode": m, "optimize": o} for i, (m, s) in enumerate(SNIPPETS) for o in (0, 2)]
+        srcs = [{"id": f"ex:{n}", "src": s, "mode": "exec", "recode": True} for n, s in REPO_EXAMPLES.items()]
+        srcs += [{"id": f"sn:{i}", "src": s, "mode": m, "optimize": o, "recode": o == 0} for i, (m, s) in enumerate(SNIPPETS) for o in (0, 2)]
         if extra_sources:
             srcs += extra_sources.get(v, [])
         if tier == "thorough":
@@ -157,6 +159,10 @@ def collect_events(rep: Report, tier: str, wd, pool: Pool, gen_cases, extra_sour
             f = str(wd / f"src-{v}-{k}.ndjson")
             files.append(f)
             jobs[v].append(("decode.sources_to_file", {"sources": ch, "path": f}))
+        k += 1
+        f = str(wd / f"bigjump-{v}-{k}.ndjson")
+        files.append(f)
+        jobs[v].append(("decode.bigjump_to_file", {"path": f}))
         if with_corpus:
             nfiles = 60 if tier == "quick" else 500
             fs = corpus.sample_files(v, nfiles, "decode") + corpus.repo_examples()
